@@ -15,20 +15,34 @@ else:
     MACHINES.append('m13')
 WLS = [dict(), dict(effects=0.4, enqueue=0.2), dict(effects=0.15, enqueue=0.1, fail=0.4), dict(restart=0.15), dict(reads=True, effects=0.2)]
 hs = []
-for m in MACHINES:
+for m in MACHINES + ['m09']:
     sp = engine.load_spec(m)
     cf = [c for c in CFGS if c in sp.get('configs', build.CONFIGS)]
     if cf:
         hs.append(engine.Harness(m, cf))
+# the three non-default active-state-switch policies on two machines (C12 / C19 corner)
+for m in ('m01', 'm03'):
+    for sw in (1, 2, 3):
+        hs.append(engine.Harness(m, CFGS[:1], switch=sw))
 errs = engine.build_harnesses(hs)
 if errs:
     print('STILLBORN', errs[0][-200:].replace('\n', ' '))
     sys.exit(0)
 kills = collections.Counter()
 first = None
+# static part of C03: documented numbering and get_state_by_id, reported by every harness at start-up
+for h in hs:
+    hdr = run.run_matrix(h.bins, ['S'])
+    for cfg in h.cfgs:
+        ids, chk = run.parse_idmap(hdr[cfg][0].header)
+        if any(v != 'ok' for v in chk.values()):
+            kills[(h.name, cfg, 'header', 'idchk')] += 1
+            first = first or {'machine': h.name, 'cfg': cfg, 'by': 'header', 'rule': 'get_state_by_id / numbering', 'tags': ['C03']}
 for h in hs:
     for wi, kw in enumerate(WLS):
-        scripts = checks.scripts_for(h, seed + wi, 40, kw)
+        if h.switch and kw.get('restart'):
+            continue        # reads inside the root's own on_entry at a restart show the previous run's ids in backmp11 (not judged)
+        scripts = checks.scripts_for(h, seed + wi, 40, dict(kw, reads=True) if h.switch else kw)
         res = run.run_matrix(h.bins, scripts)
         v = engine.accept_all(h, res)
         for cfg in h.cfgs:
